@@ -3,13 +3,17 @@
 // on linear-Gaussian models.
 // kind predict: ints n q generic skip_pred skip_state; mats params (alpha beta kappa), F (n x n),
 //               B (n x q), A (additive: F; generic: [F B]), Q (additive: n x n; generic: Qw q x q),
-//               means (n x comps), covs (n x n*comps), weights (comps x 1).
+//               means (n x comps), covs (n x n*comps), weights (comps x 1); optional exo_c (n x 1, additive
+//               only: constant exogenous input attached to both state models), out_shape (extra components /
+//               rows of the output object handed to UKFPrediction).
 // kind correct: ints n q m generic skip have_y fail online; mats params, H (m x n), D (m x q),
 //               A (additive: H; generic: [H D]), R (additive: m x m; generic: Rv q x q), y (m x 1),
 //               means, covs, weights, old_means, old_covs, old_weights (content of the output object);
+//               optional int mnoise (noise components declared by getMeasurementDescription);
 //               optional int warm + mat y0: the same object first performs a successful correction with y0.
 #define VF_MAIN
 #include "common.hpp"
+#include <BayesFilters/ExogenousModel.h>
 #include <BayesFilters/GaussianMixture.h>
 #include <BayesFilters/KFCorrection.h>
 #include <BayesFilters/KFPrediction.h>
@@ -20,6 +24,15 @@
 
 using namespace bfl;
 using namespace Eigen;
+
+// constant exogenous input u(X) = c 1^T
+struct ConstExo : public ExogenousModel {
+    MatrixXd c_;
+    explicit ConstExo(const MatrixXd& c) : c_(c) {}
+    void propagate(const Ref<const MatrixXd>& cur, Ref<MatrixXd> prop) override { prop = c_.replicate(1, cur.cols()); }
+    bool setProperty(const std::string&) override { return false; }
+    VectorDescription getStateDescription() const override { return VectorDescription(c_.rows()); }
+};
 
 // x' = F x + w, additive
 struct LTI : public LTIStateModel {
@@ -42,7 +55,7 @@ struct NoiseInputStateModel : public StateModel {
 
 // y = H x + v, additive; serves the case's measurement
 struct ServedLTI : public LTIMeasurementModel {
-    MatrixXd y_; bool have_y_, fail_; long n_;
+    MatrixXd y_; bool have_y_, fail_; long n_; long mnoise_ = 0;
     ServedLTI(const MatrixXd& H, const MatrixXd& R, const MatrixXd& y, bool have_y, bool fail)
         : LTIMeasurementModel(H, R), y_(y), have_y_(have_y), fail_(fail), n_(H.cols()) {}
     bool freeze(const Data&) override { return true; }
@@ -52,12 +65,12 @@ struct ServedLTI : public LTIMeasurementModel {
         return LTIMeasurementModel::predictedMeasure(cur);
     }
     VectorDescription getInputDescription() const override { return VectorDescription(n_, 0, H_.rows()); }
-    VectorDescription getMeasurementDescription() const override { return VectorDescription(H_.rows()); }
+    VectorDescription getMeasurementDescription() const override { return VectorDescription(H_.rows(), 0, mnoise_); }
 };
 
 // y = [H D] [x; v], noise enters through the model
 struct NoiseInputMeasModel : public MeasurementModel {
-    MatrixXd A_, Rv_, y_; bool have_y_, fail_; long n_, q_;
+    MatrixXd A_, Rv_, y_; bool have_y_, fail_; long n_, q_; long mnoise_ = 0;
     NoiseInputMeasModel(const MatrixXd& A, const MatrixXd& Rv, const MatrixXd& y, bool have_y, bool fail, long n, long q)
         : A_(A), Rv_(Rv), y_(y), have_y_(have_y), fail_(fail), n_(n), q_(q) {}
     bool freeze(const Data&) override { return true; }
@@ -73,7 +86,7 @@ struct NoiseInputMeasModel : public MeasurementModel {
     }
     std::pair<bool, MatrixXd> getNoiseCovarianceMatrix() const override { return std::make_pair(true, Rv_); }
     VectorDescription getInputDescription() const override { return VectorDescription(n_, 0, q_); }
-    VectorDescription getMeasurementDescription() const override { return VectorDescription(A_.rows()); }
+    VectorDescription getMeasurementDescription() const override { return VectorDescription(A_.rows(), 0, mnoise_); }
 };
 
 static void dump(const std::string& pre, const GaussianMixture& g) {
@@ -108,12 +121,17 @@ int main() {
                     const MatrixXd& B = c.mat("B");
                     Qeff = B * Q * B.transpose();
                     ukf.reset(new UKFPrediction(std::unique_ptr<StateModel>(new NoiseInputStateModel(A, Q, n, q)), alpha, beta, kappa));
-                } else
-                    ukf.reset(new UKFPrediction(std::unique_ptr<AdditiveStateModel>(new LTI(F, Q)), alpha, beta, kappa));
+                } else {
+                    std::unique_ptr<AdditiveStateModel> sm(new LTI(F, Q));
+                    if (c.has_mat("exo_c")) sm->add_exogenous_model(std::unique_ptr<ExogenousModel>(new ConstExo(c.mat("exo_c"))));
+                    ukf.reset(new UKFPrediction(std::move(sm), alpha, beta, kappa));
+                }
             }
             if (c.integer("skip_pred")) ukf->skip("prediction", true);
             else if (c.integer("skip_state")) ukf->skip("state", true);
-            GaussianMixture pred(comps, n);
+            // the output object may have another shape: the unscented prediction assigns the whole mixture
+            const long dshape = c.has_int("out_shape") ? c.integer("out_shape") : 0;
+            GaussianMixture pred(comps + dshape, n + dshape);
             pred.mean().setConstant(7.25); pred.covariance().setConstant(-3.5); pred.weight().setConstant(0.125);
             { vf::Entry e("UKFPrediction::predict"); ukf->predict(in, pred); }
             vf::out_int("components", pred.components);
@@ -121,7 +139,9 @@ int main() {
             dump("", pred);
             vf::out_mat("weights", pred.weight().transpose());
             // the implementation's own Kalman prediction on the same inputs
-            KFPrediction kf(std::unique_ptr<LinearStateModel>(new LTI(F, Qeff)));
+            std::unique_ptr<LinearStateModel> ksm(new LTI(F, Qeff));
+            if (!generic && c.has_mat("exo_c")) ksm->add_exogenous_model(std::unique_ptr<ExogenousModel>(new ConstExo(c.mat("exo_c"))));
+            KFPrediction kf(std::move(ksm));
             GaussianMixture kpred(comps, n);
             { vf::Entry e("KFPrediction::predict"); kf.predict(in, kpred); }
             dump("kf_", kpred);
@@ -129,6 +149,7 @@ int main() {
             const long m = c.integer("m");
             const MatrixXd& H = c.mat("H"); const MatrixXd& R = c.mat("R"); const MatrixXd& A = c.mat("A"); const MatrixXd& y = c.mat("y");
             const bool have_y = c.integer("have_y") != 0, fail = c.integer("fail") != 0;
+            const long mnoise = c.has_int("mnoise") ? c.integer("mnoise") : 0;   // noise components of the measurement description
             std::unique_ptr<UKFCorrection> ukf;
             ServedLTI* served = nullptr; NoiseInputMeasModel* noisy = nullptr;
             MatrixXd Reff = R;
@@ -138,9 +159,11 @@ int main() {
                     const MatrixXd& D = c.mat("D");
                     Reff = D * R * D.transpose();
                     noisy = new NoiseInputMeasModel(A, R, y, have_y, fail, n, q);
+                    noisy->mnoise_ = mnoise;
                     ukf.reset(new UKFCorrection(std::unique_ptr<MeasurementModel>(noisy), alpha, beta, kappa, c.integer("online") != 0));
                 } else {
                     served = new ServedLTI(H, R, y, have_y, fail);
+                    served->mnoise_ = mnoise;
                     ukf.reset(new UKFCorrection(std::unique_ptr<AdditiveMeasurementModel>(served), alpha, beta, kappa));
                 }
             }
